@@ -188,6 +188,55 @@ CLAIMED = {
              "escapes, and output buffers are sized >= the per-byte expansion. Exactly-one-record and full reversibility are not decided.",
         technique="enumerator-wise switch folding + must-pass; per-byte concrete branch evaluation (exhaustive over 0..255) on the CFG; expansion bound vs allocation multiplier",
         design="5/C34"),
+    "C48": dict(
+        text="Copy-on-write discipline of SBuf: in every SBuf method a write through store_ (store_->mem[..], store_->size, MemBlob mutators) or through the "
+             "pointer handed out by rawSpace()/bufEnd() happens only after cow()/rawSpace()/reAlloc()/reserve*() on all paths, or with store_->LockCount()==1 or "
+             "canAppend() established; cow() returns without reallocating only for an exclusively owned blob; reAlloc installs a fresh blob; rawSpace hands out "
+             "the tail only after canAppend() or cow(); MemBlob::append/appended/syncSize modify the blob only past their Must() guards. Equivalence with "
+             "std::string over histories is not decided.",
+        technique="store-write site enumeration over resolved member accesses + must-pass/dominance facts per site",
+        design="5/C48"),
+    "C45": dict(
+        text="For every CFG path of clientAccessCheck, clientAccessCheckDone and doCallouts: the http_access step always starts a check on Config.accessList.http "
+             "(constant denial when unset); a non-allowed answer always becomes a 403/407/401 error before doCallouts; processRequest() and all later callout steps "
+             "run only with the error last seen null and the http_access step marked done; the error is cleared only after delivery. Whole-program, processRequest "
+             "has one caller and http_access_done / error have only the confirmed writers. ACL evaluation itself (C44) is not decided.",
+        technique="path-sensitive must-fact dataflow with last-seen flag values in the product environment, RESPONSE/ORDER, whole-program who-calls/who-writes",
+        design="5/C45"),
+    "C46": dict(
+        text="On all paths of the proxy_auth chain (AuthenticateAcl, the two auth ACL match()es, matchProxyAuth, authenticateUserAuthenticated, UserRequest::authenticated, "
+             "static UserRequest::authenticate, tryToAuthenticateAndSetAuthUser): an allow/match verdict is produced only when the state machine reported AUTH_AUTHENTICATED, "
+             "which requires credentials()==Ok on a valid request; pending/challenge answers become -1 plus markFinished(answer); ACCESS_AUTH_REQUIRED is answered with 407 "
+             "for non-bumped forward-proxy requests. Identity mixing across schedules, credential caches and scheme decoders are not decided.",
+        technique="CFG dominance, per-enumerator switch folding, path-sensitive disjunction, constant propagation of the status local, who-calls/who-writes",
+        design="5/C46"),
+    "C44": dict(
+        text="For every path of the four inner-node doMatch() functions, Tree's action lookups and the checklist match/resume/implicit-answer functions: a rule counts as "
+             "mismatched only when its child mismatched while the checklist could keep matching (a suspended or failed child yields -1); the winning action is the one at the "
+             "matched rule's index; suspension records a breadcrumb and resumption continues from it; the implicit answer is the exact reversal table and is computed only for "
+             "an unfinished, idle check. Equality with a reference evaluator over all rule lists is not decided.",
+        technique="verdict tables checked against path-sensitive must-facts, RESPONSE/ORDER, reaching-value tracking, structural definition checks",
+        design="5/C44"),
+    "C61": dict(
+        text="On all paths of CacheManager::start no action is created, run or forwarded and no menu page is built unless CheckPassword() returned 0 for the parsed command; "
+             "CheckPassword returns 0 only for a configured \"none\", denies on \"disable\", and otherwise returns isPwReq (no line) or the comparison with the supplied "
+             "password; PasswdGet returns only the matching line's password. Password extraction from URL/Authorization and the http_access part (C45) are not decided.",
+        technique="CFG dominance, RESPONSE, return-kind table, who-calls",
+        design="5/C61"),
+    "C62": dict(
+        text="For all paths of the HTTP/1 parser and its callers: a MIME block is accepted only below the limit the caller passed (Config.maxRequestHeaderSize / "
+             "maxReplyHeaderSize); an over-limit block or request line always sets 601/414 and fails the parse; that failure always becomes an aborted request with "
+             "parsed_ok == 0, an ERR_TOO_BIG 431/414 reply and no clientProcessRequest(); on the server side it becomes a status that can only end in fwd->fail(). "
+             "headersEnd/firstLineSize arithmetic and boundary behaviour under incremental arrival are not decided.",
+        technique="CFG dominance over normalised comparison atoms, RESPONSE chains parser -> client/server, call-argument provenance, who-calls/who-writes",
+        design="5/C62"),
+    "C20": dict(
+        text="For every path from Client::setFinalReply through (all overrides of) haveParsedReplyHeaders to maybePurgeOthers: a reply with status < 400 to a method for "
+             "which purgesOthers() holds (true for POST/PUT/DELETE/OTHER, per enumerator) always triggers eviction of the request URL and of same-host or relative Location "
+             "and Content-Location URLs, for every method key with respMaybeCacheable(); other-host absolute URLs are never purged. What evictIfFound() removes across stores "
+             "and replies bypassing setFinalReply are not decided.",
+        technique="path-sensitive disjunction over guards and passed-events (must-pass on all exits), whole-program override enumeration, per-enumerator switch folding, RESPONSE on the loop",
+        design="5/C20"),
 }
 
 NOT_APPLICABLE = {
